@@ -58,6 +58,13 @@ f741aba:C11
 9944225:C08
 83acbbb:C04
 3e38392:C11
+95e93be:C08
+eae3b07:C11
+e2a2e4c:C11
+27f3a2f:C03
+da05acb:C06
+9a95cc4:C18,C05,C06
+f907567:C03
 "
 if [ -n "$(git -C /repo status --porcelain)" ]; then echo "/repo is not clean"; exit 2; fi
 mkdir -p selftest
